@@ -346,9 +346,15 @@ def candidates(prog, ck, include_neq=False):
             if opts:
                 def wrongcol(rng, idx=idx, bpath=bpath, pool=opts):
                     _, vs, pred, f = rng.choice(pool)
-                    return add_literal(prog, idx, bpath,
-                                       ('call', pred, ((f, ('var', rng.choice(vs))),), ()),
-                                       rng)
+                    args = ((f, ('var', rng.choice(vs))),)
+                    if isinstance(f, int) and f > 0:
+                        # positional arguments are printed without their index: the
+                        # columns before it get fresh variables
+                        used = model_vars(prog['rules'][idx])
+                        fresh = [n for n in ('wa', 'wb', 'wc', 'wd', 'we')
+                                 if n not in used]
+                        args = tuple((i, ('var', fresh[i])) for i in range(f)) + args
+                    return add_literal(prog, idx, bpath, ('call', pred, args, ()), rng)
                 out.append(('call_wrong_column', wrongcol))
                 pref = [o for o in opts if o[0]]
                 if pref:
